@@ -525,6 +525,16 @@ def recursion(P, rep, reach):
         rep.ob("C16.recursion|%s" % "+".join(comp), kind is not None,
                "cycle %s is bounded: %s" % (name, why) if kind else
                "cycle %s has no depth guard: %s" % (name, why), detail={"cycle": comp})
+        # depth alone bounds the work only for recursion over the parts of a value that is in memory; a cycle that re-enters with
+        # something it looked up, expanded or read (a definition, a macro body, a file) multiplies: depth d, fan-out b -> b^d steps
+        if kind == "guard" and not all(c.startswith("document::document::") for c in comp):
+            ns = nonstructural_calls(P, comp)
+            if ns:
+                okb, whyb = work_budget(P, comp)
+                rep.ob("C16.fanout|%s" % "+".join(comp), okb,
+                       "cycle %s re-enters with values it looked up or produced (%s): the total work is bounded by a shared budget — %s" % (name, ns[0], whyb) if okb else
+                       "cycle %s re-enters with values it looked up or produced (%s) and only its depth is limited: definitions / macros / files that each use the previous one twice double the work with every level (2^depth) — %s" % (name, ns[0], whyb),
+                       detail={"non-structural calls": ns})
 
 
 def _has_cycle_without(P, comp, k):
@@ -658,6 +668,125 @@ def cycle_guard(P, comp):
                     return "guard", "%s compares the nesting-depth field `%s` of its context with %s, fails beyond it, and every call back into the cycle gets a context with %s + c" % (
                         k.split("::")[-1], fd["name"], guard, fd["name"])
     return None, "no function on all cycles compares an integer parameter or context field with a constant, fails beyond it and passes it on incremented"
+
+
+def nonstructural_calls(P, comp):
+    """recursive calls none of whose arguments is a strict part of one of the caller's parameters"""
+    out = []
+    TRANSP = {"<std::boxed::Box<T, A> as std::ops::Deref>::deref", "<std::boxed::Box<T, A> as std::convert::AsRef<T>>::as_ref",
+              "<std::rc::Rc<T, A> as std::ops::Deref>::deref", "<std::vec::Vec<T, A> as std::ops::Deref>::deref"}
+    for k in comp:
+        b = P.body[k]
+        ch = MU.Chaser(b, transparent=TRANSP)
+        for bb, t, name, tg in P.call_sites(k):
+            if not any(x in comp for x in tg):
+                continue
+            structural = False
+            for a in t["args"]:
+                r = ch.root(a)
+                if r[0] is not None and 1 <= r[0] <= b["arg_count"] and any(e["k"] in ("field", "downcast") for e in r[1]):
+                    # a part of a parameter that is itself data (not the shared context the recursion carries along)
+                    pty = P.tys(k, b["locals"][r[0]]["ty"])
+                    if not re.search(r"Context\b|dyn |Formatter", pty):
+                        structural = True
+            if not structural:
+                out.append("%s -> %s" % (k.split("::")[-1], (MU.callee_names(t)[1]).split("::")[-1]))
+    return sorted(set(out))
+
+
+def work_budget(P, comp):
+    """a counter in a Cell that all activations share: checked against a constant (the failing side builds an Err and cannot reach a call
+    back into the cycle), the check dominates every call back into the cycle, the counter is stepped up by a constant on the way, and the
+    Cell is reached from a parameter that every call back into the cycle passes on (as it is, or as an Rc::clone in a rebuilt context)"""
+    TRANSP = {"<std::rc::Rc<T, A> as std::ops::Deref>::deref"}
+    for k in comp:
+        if _has_cycle_without(P, comp, k):
+            continue
+        b = P.body[k]
+        ch = MU.Chaser(b, transparent=TRANSP)
+        idom = G.dominators(b)
+        rec_calls = [(bb, term) for bb, term, name, tg in P.call_sites(k) if any(x in comp for x in tg)]
+        gets = [(bb, t) for bb, t, n, tg in P.call_sites(k) if MU.callee_names(t)[1] == "std::cell::Cell::<T>::get"]
+        sets = [(bb, t) for bb, t, n, tg in P.call_sites(k) if MU.callee_names(t)[1] == "std::cell::Cell::<T>::set"]
+        for gbb, gt in gets:
+            recv = ch.root(gt["args"][0])
+            if recv[0] is None or not (1 <= recv[0] <= b["arg_count"]):
+                continue
+            rkey = (recv[0], tuple(MU.proj_fields(recv[1])))
+            # compared with a constant right after
+            dest = gt["dest"]["local"]
+            guard_bb = None
+            limit = None
+            for bi, bl in enumerate(b["blocks"]):
+                for st in bl["stmts"]:
+                    if st["k"] == "assign" and st["rv"]["k"] == "bin" and st["rv"]["op"] in ("Gt", "Ge", "Lt", "Le") and "const" in st["rv"]["r"]:
+                        r = ch.root(st["rv"]["l"], through_calls=False)
+                        if r[0] == dest and bl["term"]["k"] == "switch" and _err_exit_sides(P, k, b, bl, comp):
+                            guard_bb = bi
+                            limit = st["rv"]["r"]["const"].get("int")
+            if guard_bb is None or not rec_calls or not all(G.dominates(idom, guard_bb, bb) for bb, term in rec_calls):
+                continue
+            # stepped up: set(same cell, get(same cell) + c) on every path to a call back into the cycle
+            stepped = False
+            for sbb, stt in sets:
+                r2 = ch.root(stt["args"][0])
+                if (r2[0], tuple(MU.proj_fields(r2[1]))) != rkey:
+                    continue
+                locs, consts, calls, places = MU.backward_slice(b, stt["args"][1:2])
+                from_get = any(MU.callee_names(c)[1] == "std::cell::Cell::<T>::get" for c in calls)
+                plus = any(st["k"] == "assign" and st["place"]["local"] in locs and st["rv"]["k"] == "bin" and st["rv"]["op"].startswith("Add") and
+                           const_int(st["rv"]["r"]) is not None and const_int(st["rv"]["r"]) >= 1 for bl in b["blocks"] for st in bl["stmts"])
+                if from_get and plus and all(G.dominates(idom, sbb, bb) for bb, term in rec_calls):
+                    stepped = True
+            if not stepped:
+                continue
+            # shared: every call back into the cycle hands the parameter on, or a rebuilt context whose field is an Rc::clone of it
+            p = recv[0]
+            pty = P.tys(k, b["locals"][p]["ty"])
+            shared = True
+            for bb, term in rec_calls:
+                okc = False
+                for a in term["args"]:
+                    r3 = ch.root(a, through_calls=False)
+                    if r3[0] == p and not MU.proj_fields(r3[1]):
+                        okc = True
+                    d = ch.single_def(r3[0]) if r3[0] is not None else None
+                    if d and d[0] == "stmt" and d[2]["k"] == "agg" and d[2]["kind"].get("path") and d[2]["kind"]["path"] in pty and rkey[1]:
+                        o = d[2]["ops"][rkey[1][0]] if rkey[1][0] < len(d[2]["ops"]) else None
+                        if o is not None:
+                            r4 = ch.root(o, through_calls=False)
+                            d4 = ch.single_def(r4[0]) if r4[0] is not None else None
+                            if d4 and d4[0] == "call" and MU.callee_names(d4[2])[1] == "<std::rc::Rc<T, A> as std::clone::Clone>::clone":
+                                r5 = ch.root(d4[2]["args"][0])
+                                if (r5[0], tuple(MU.proj_fields(r5[1]))) == rkey:
+                                    okc = True
+                if not okc:
+                    shared = False
+            if not shared:
+                continue
+            # no other function of the cycle replaces the counter by a fresh one
+            fresh = []
+            if rkey[1]:
+                S = None
+                t_ = P.ty(k, b["locals"][p]["ty"])
+                while t_["k"] == "ref":
+                    t_ = P.ty(k, t_["to"])
+                S = t_.get("path")
+                for k2 in comp:
+                    b2 = P.body[k2]
+                    ch2 = MU.Chaser(b2, transparent={"<%s as std::clone::Clone>::clone" % S})
+                    for bl in b2["blocks"]:
+                        for st in bl["stmts"]:
+                            if st["k"] == "assign" and st["rv"]["k"] == "agg" and st["rv"]["kind"].get("path") == S:
+                                o = st["rv"]["ops"][rkey[1][0]]
+                                locs, consts, calls, places = MU.backward_slice(b2, [o])
+                                if any(re.search(r"Rc::<T>::new$|Cell::<T>::new$", MU.callee_names(c)[1]) for c in calls):
+                                    fresh.append(k2)
+            if fresh:
+                continue
+            return True, "%s checks a shared counter (Cell reached from `%s`) against %s before every call back into the cycle and steps it up" % (
+                k.split("::")[-1], b["locals"][p]["name"], limit)
+    return False, "no counter shared by all activations (a Cell reached from a parameter that is handed on) is checked against a constant and stepped up in front of the calls back into the cycle"
 
 
 _guard_cache = {}
